@@ -186,11 +186,8 @@ def random_tree(rng, n, leaves):
 
 
 def code_rule_name(f):
-    """What the code (after fixes/fn-name.diff) takes as the function's name: the code object's co_name for
-    Python functions, else __name__ (built-ins, method descriptors, bound methods, classes), else repr."""
-    code = getattr(f, "__code__", None)
-    if code:
-        return code.co_name
+    """The function's name: __name__ (what Python calls "the function's name": functions, lambdas, functools.wraps
+    wrappers, built-ins, method descriptors, bound methods, classes), else repr (partial objects, callable instances)."""
     n = getattr(f, "__name__", None)
     return n if n is not None else repr(f)
 
@@ -294,8 +291,8 @@ def judge(p, j, path="$"):
         f = p.predicate_fn
         if not (isinstance(v, dict) and list(v) == ["name"] and type(v["name"]) is str):
             return [f"{path}: fn rendered as {v!r}"]
-        own = {n for n in (getattr(f, "__name__", None), getattr(getattr(f, "__code__", None), "co_name", None)) if isinstance(n, str)}
-        return [] if (not own or v["name"] in own) else [f"{path}: fn name {v['name']!r}, the function is called {sorted(own)}"]
+        own = getattr(f, "__name__", None)
+        return [] if (not isinstance(own, str) or v["name"] == own) else [f"{path}: fn name {v['name']!r}, the function's __name__ is {own!r}"]
     if c is AlwaysTruePredicate:
         return [] if v is True else [f"{path}: true rendered as {v!r}"]
     if c is AlwaysFalsePredicate:
@@ -425,8 +422,8 @@ def main(tier):
     chk.extra["distribution"] = dict(sorted(stats.items()))
     chk.extra["atoms"] = len(descs)
     chk.assumptions = [
-        "the name of a function atom is supplied to the model by the harness (co_name of __code__, else __name__, else repr: the rule of the patched code); "
-        "the property check on the real objects only demands a str that is the function's __name__ or co_name when it has one",
+        "the name of a function atom is supplied to the model by the harness (__name__, else repr); "
+        "the property check on the real objects demands the function's __name__ when it has one (a functools.wraps wrapper is named like the function it wraps)",
         "json.dumps is exercised, not modelled: a constant counts as serialisable iff json.dumps accepts it on its own",
     ]
     return chk.finish()
